@@ -7,11 +7,21 @@ import json
 import sys
 
 SETTINGS = {"d": None, "k1": {"CACHE_SIZE_LIMIT": 1}, "k2": {"CACHE_SIZE_LIMIT": 1000, "DATE_ORDER": "DMY"},
-            "k3": {"CACHE_SIZE_LIMIT": 2}}
+            "k3": {"CACHE_SIZE_LIMIT": 2}, "k4": {"RELATIVE_BASE": datetime.datetime(2020, 1, 10, 12, 0)},
+            "k5": {"RELATIVE_BASE": datetime.datetime(2000, 5, 5, 8, 30)}, "k6": {"DATE_ORDER": "MDY"}, "k7": {"NORMALIZE": True}}
 STR = {"N": {"en": "01/02/2015", "fr": "01/02/2015", "tl": "01/02/2015"},
        "R": {"en": "yesterday", "fr": "hier", "tl": "kahapon"},
        "F": {"en": "32/13/2015", "fr": "32/13/2015", "tl": "32/13/2015"}}
 TEXT = {"en": "on 12 January 2010 and yesterday", "fr": "le 12 janvier 2010 et hier", "tl": "12 Enero 2010, kahapon"}
+
+
+def _dec(st):
+    if st is None:
+        return None
+    out = {}
+    for k, v in st.items():
+        out[k] = datetime.datetime(*v) if k == "RELATIVE_BASE" and isinstance(v, list) else (list(v) if isinstance(v, list) else v)
+    return out
 
 
 def sdict(k):
@@ -36,7 +46,8 @@ def abstract(kind, s, conc):
         if s == "N":
             return {"2015-01-02T00:00:00": "MD", "2015-02-01T00:00:00": "DM"}.get(conc, "other:" + conc)
         if s == "R":
-            return "rel-now" if conc == "rel-now" else ("rel-leaked-base" if conc.startswith("2010-01-1") else "other:" + conc)
+            return {"rel-now": "rel-now", "2020-01-09T12:00:00": "rel-B1", "2000-05-04T08:30:00": "rel-B2"}.get(
+                conc, "rel-leaked-base" if conc.startswith("2010-01-1") else "other:" + conc)
         return "None" if conc == "None" else "other:" + conc
     if kind == "new":
         return "created"
@@ -61,7 +72,8 @@ def project():
         if pk:
             name_of[key] = pk
             order[pk] = str(obj.DATE_ORDER)
-            base[pk] = "none" if not obj.RELATIVE_BASE else "B"
+            rb = obj.RELATIVE_BASE
+            base[pk] = "none" if not rb else ("B1" if rb == SETTINGS["k4"]["RELATIVE_BASE"] else "B2" if rb == SETTINGS["k5"]["RELATIVE_BASE"] else "B")
     caches = {}
     for cname in ("_sorted_relative_strings_cache", "_split_relative_regex_cache", "_match_relative_regex_cache",
                   "_sorted_words_cache", "_split_regex_cache"):
@@ -88,18 +100,18 @@ def main():
                 _, k, L, s = c
                 st = sdict(k)
                 langs = [L]
-                args_before = (json.dumps(st, sort_keys=True), list(langs))
+                args_before = (json.dumps(st, sort_keys=True, default=str), list(langs))
                 r = dateparser.parse(STR[s][L], languages=langs, settings=st)
                 conc = norm_dt(r)
-                untouched = args_before == (json.dumps(st, sort_keys=True), list(langs))
+                untouched = args_before == (json.dumps(st, sort_keys=True, default=str), list(langs))
             elif kind == "new":
                 _, i, k, L = c
                 st = sdict(k)
                 langs = [L]
-                args_before = (json.dumps(st, sort_keys=True), list(langs))
+                args_before = (json.dumps(st, sort_keys=True, default=str), list(langs))
                 insts[i] = (DateDataParser(languages=langs, settings=st), L)
                 conc = "created"
-                untouched = args_before == (json.dumps(st, sort_keys=True), list(langs))
+                untouched = args_before == (json.dumps(st, sort_keys=True, default=str), list(langs))
             elif kind == "get":
                 _, i, s = c
                 p, L = insts[i]
@@ -110,18 +122,46 @@ def main():
                 _, k, L = c
                 st = sdict(k)
                 langs = [L]
-                args_before = (json.dumps(st, sort_keys=True), list(langs))
+                args_before = (json.dumps(st, sort_keys=True, default=str), list(langs))
                 r = search_dates(TEXT[L], languages=langs, settings=st)
                 conc = "None" if r is None else "[" + ", ".join("(%r, %s)" % (a, norm_dt(b)) for a, b in r) + "]"
-                untouched = args_before == (json.dumps(st, sort_keys=True), list(langs))
+                untouched = args_before == (json.dumps(st, sort_keys=True, default=str), list(langs))
+            elif kind == "xnew":          # ["xnew", inst, {settings, languages}]
+                _, i, a = c
+                st = _dec(a.get("settings"))
+                args_before = json.dumps(st, sort_keys=True, default=str)
+                insts[i] = (DateDataParser(languages=a.get("languages"), settings=st), None)
+                conc = "created"
+                untouched = args_before == json.dumps(st, sort_keys=True, default=str)
+            elif kind == "xget":          # ["xget", inst, string]
+                _, i, s_ = c
+                dd = insts[i][0].get_date_data(s_)
+                conc = "%s|%s|%s" % (norm_dt(dd["date_obj"]), dd["period"], dd["locale"])
+                if dd["date_obj"] is not None and dd["date_obj"].tzinfo is not None:
+                    conc += "|off=%s" % dd["date_obj"].utcoffset()
+                untouched = True
+            elif kind == "xparse":        # ["xparse", {s, settings, languages}]
+                _, a = c
+                st = _dec(a.get("settings"))
+                langs = list(a["languages"]) if a.get("languages") else None
+                args_before = (json.dumps(st, sort_keys=True, default=str), list(langs or []))
+                r = dateparser.parse(a["s"], languages=langs, settings=st)
+                conc = norm_dt(r) + ("|off=%s" % r.utcoffset() if r is not None and r.tzinfo is not None else "")
+                untouched = args_before == (json.dumps(st, sort_keys=True, default=str), list(langs or []))
+            elif kind == "xsearch":
+                _, a = c
+                st = _dec(a.get("settings"))
+                r = search_dates(a["s"], languages=a.get("languages"), settings=st)
+                conc = "None" if r is None else "[" + ", ".join("(%r, %s)" % (x, norm_dt(y)) for x, y in r) + "]"
+                untouched = True
             else:
                 raise ValueError(kind)
         except BaseException as e:  # the outcome (value or exception) is what C03 speaks about
             conc = "exc:" + type(e).__name__
             untouched = True
         s = c[3] if kind == "parse" else (c[2] if kind == "get" else "")
-        rec = {"call": c, "conc": conc, "abs": abstract(kind, s, conc), "args_untouched": untouched}
-        if req.get("observe", True):
+        rec = {"call": c, "conc": conc, "abs": abstract(kind, s, conc) if not kind.startswith("x") else "x", "args_untouched": untouched}
+        if req.get("observe", True) and not kind.startswith("x"):
             rec["state"] = project()
         out.append(rec)
     json.dump(out, sys.stdout)
